@@ -374,6 +374,11 @@ func (f *formatStore) Query(expression string, options ...spi.QueryOption) (spi.
 		return nil, errInvalidQueryExpressionFormat
 	}
 
+	options, err := f.formatQueryOptions(options)
+	if err != nil {
+		return nil, err
+	}
+
 	expressionSplit := strings.Split(expression, ":")
 	switch len(expressionSplit) {
 	case expressionTagNameOnlyLength:
@@ -405,6 +410,30 @@ func (f *formatStore) Query(expression string, options ...spi.QueryOption) (spi.
 	default:
 		return nil, errInvalidQueryExpressionFormat
 	}
+}
+
+// formatQueryOptions formats the tag name of a sort order: like every other tag name it must not reach the underlying
+// store unformatted.
+func (f *formatStore) formatQueryOptions(options []spi.QueryOption) ([]spi.QueryOption, error) {
+	var queryOptions spi.QueryOptions
+
+	for _, option := range options {
+		option(&queryOptions)
+	}
+
+	if queryOptions.SortOptions == nil || queryOptions.SortOptions.TagName == "" {
+		return options, nil
+	}
+
+	_, _, formattedTags, err := f.formatter.Format("", nil, spi.Tag{Name: queryOptions.SortOptions.TagName})
+	if err != nil {
+		return nil, fmt.Errorf(failFormat, "tag name", queryOptions.SortOptions.TagName, err)
+	}
+
+	return append(options, spi.WithSortOrder(&spi.SortOptions{
+		Order:   queryOptions.SortOptions.Order,
+		TagName: formattedTags[0].Name,
+	})), nil
 }
 
 func (f *formatStore) Delete(key string) error {
